@@ -733,7 +733,7 @@ class _AnyName:
 def _kind_constants(ctx, fn, arg):
     """Names a kind -> container function can return for the entity kinds, when it is not a plain chain of constant returns (a loop
     over a table, a delegation to another function): evaluated per kind as C05.FILE does; None when it cannot be told."""
-    from ._c05_sem import _delegate
+    from ._c05_sem import _bound_callee, _delegate
 
     F = Fx(fn)
     call = F.x(arg)
@@ -744,7 +744,7 @@ def _kind_constants(ctx, fn, arg):
         return None
     out = set()
     for k in ("Data", "Group", "ObjectBase"):
-        out |= containers_of_kind(ctx.p, sem_view(ctx, d[0]), d[1], ctx.p.cls(k), universe=_AnyName(), ctx=ctx, _depth=1)
+        out |= containers_of_kind(ctx.p, _bound_callee(ctx, d[0], d[2]), d[1], ctx.p.cls(k), universe=_AnyName(), ctx=ctx, _depth=1)
     return out or None
 
 
@@ -1255,6 +1255,29 @@ def rule_deferred(ctx) -> RuleResult:
 
     per_node = {n: node_sweeps(n) for n in g.nodes}
 
+    def mode_test(e, depth=0):
+        """a comparison of modes, or a call to a one-line predicate on modes that was not expanded (`is_write_mode(<handle>.mode)`)"""
+        v = _writable_mode(e)
+        if v is not None or not isinstance(e, ast.Call) or e.keywords or depth > 2:
+            return v
+        r = p.resolve_expr(fn.module, e.func) if isinstance(e.func, (ast.Name, ast.Attribute)) else None
+        target = r[1] if r and r[0] == "func" else None
+        if target is None:
+            return None
+        body = [s_ for s_ in target.node.body if not (isinstance(s_, ast.Expr) and isinstance(s_.value, ast.Constant))]
+        ps = target.params[1:] if target.kind in ("method", "classmethod") else target.params
+        if len(body) != 1 or not isinstance(body[0], ast.Return) or body[0].value is None or len(ps) != len(e.args):
+            return None
+        import copy
+
+        mapping = dict(zip(ps, e.args))
+
+        class S(ast.NodeTransformer):
+            def visit_Name(self, n):
+                return copy.deepcopy(mapping[n.id]) if n.id in mapping and isinstance(n.ctx, ast.Load) else n
+
+        return _assume(S().visit(copy.deepcopy(body[0].value)), lambda x: mode_test(x, depth + 1))
+
     def reach_writable(avoid):
         seen, stack = set(), [g.entry]
         while stack:
@@ -1264,7 +1287,7 @@ def rule_deferred(ctx) -> RuleResult:
             seen.add(n)
             succ = n.succ
             if n.kind == "test":
-                v = _assume(F.test(n), _writable_mode)
+                v = _assume(F.test(n), mode_test)
                 if v is not None:
                     succ = [(m, l) for m, l in n.succ if l != ("false" if v else "true")]
             # NORMAL paths only: an exception out of a try / with body is not a close() that completed without the sweep
